@@ -10,6 +10,7 @@ mod c03;
 mod c04;
 mod c05;
 mod c06;
+mod c17;
 mod c18;
 mod gen;
 mod util;
@@ -37,6 +38,7 @@ fn main() {
     "C04" => c04::run(&mut sink, &mut rng, thorough),
     "C05" => c05::run(&mut sink, &mut rng, thorough),
     "C06" => c06::run(&mut sink, &mut rng, thorough),
+    "C17" => c17::run(&mut sink, &mut rng, thorough),
     "C18" => c18::run(&mut sink, &mut rng, thorough),
     _ => {
       eprintln!("unknown property {}", prop);
